@@ -196,57 +196,7 @@ func C15(ctx *core.Ctx) {
 		}
 	}
 	// ---- R3 ---------------------------------------------------------------------
-	tokenBody := map[*ssa.BasicBlock]bool{}
-	for in, idx := range tokenRecv {
-		if sel, ok := in.(*ssa.Select); ok {
-			if b := SelectCaseBlock(sel, idx); b != nil {
-				tokenBody[b] = true
-			}
-		}
-	}
-	classified := func(in ssa.Instruction) bool {
-		if tokenBody[in.Block()] {
-			return true
-		}
-		if c, ok := ssax.AsCall(in); ok && c.Static != nil {
-			if c.Static == closeFn {
-				return true
-			}
-			// Close() = close(nil)
-			for _, c2 := range ssax.Calls(c.Static) {
-				if c2.Static == closeFn && c.Static.Pkg == r.Pkg && len(c.Static.Blocks) == 1 {
-					return true
-				}
-			}
-		}
-		return false
-	}
-	ssax.Instrs(loop, func(in ssa.Instruction) {
-		ret, ok := in.(*ssa.Return)
-		if !ok || in.Block().Comment == "recover" {
-			return
-		}
-		isThis := func(x ssa.Instruction) bool { return x == ssa.Instruction(ret) }
-		bad := ssax.PathFrom(loop, nil, isThis, classified)
-		if classified(ret) {
-			bad = nil
-		}
-		if bad == nil {
-			ctx.Discharge("C15.R3", ln+" › return in block "+in.Block().Comment+sprintf("#%d", retOrdinal(loop, ret)), r.IPos(in), "preceded by token consumption or close(cause)")
-		} else {
-			ctx.Violate("C15.R3", ln+" › return in block "+in.Block().Comment+sprintf("#%d", retOrdinal(loop, ret)), r.IPos(in),
-				"the reader loop can exit without the transport being closed and the cause published: the transport stays 'open' with nobody reading", ssax.PathString(r.V.Fset, bad)...)
-		}
-	})
-	// errors from reading a frame / Execute lead to an exit (connection-oriented receiver: close and report)
-	for _, c := range ssax.Calls(loop) {
-		if c.Static == closeFn {
-			args := c.Args()
-			_, isNil := ssax.Strip(args[1]).(*ssa.Const)
-			ctx.Check(!isNil, "C15.R3", ln+" › close carries the error as cause #"+sprintf("%d", callOrdinal(loop, c)), r.IPos(c.Instr),
-				"close(err) with the error that ended the loop", "an unclean exit is reported with a nil cause (looks like a clean close: the monitor does not reopen)")
-		}
-	}
+	readerExits(ctx, r, loop, "C15.R3")
 
 	// ---- R4 ---------------------------------------------------------------------
 	cn := ssax.Name(closeFn)
@@ -585,5 +535,70 @@ func c15Monitor(ctx *core.Ctx, r *RT) {
 		}
 		ctx.Check(ok, "C15.R6", rn+" › one handler per received cause", fnPos(r, run),
 			"clean and unclean handlers sit on opposite edges of cause != nil, the unclean one gets the received cause", "a received close cause can trigger both or neither of the monitor callbacks, or the wrong cause")
+	}
+}
+
+// readerExits: every return of a connection-oriented reader loop is preceded
+// by consuming the close token or by close(cause)/Close(); an unclean exit
+// carries the error as cause.
+func readerExits(ctx *core.Ctx, r *RT, loop *ssa.Function, rule string) {
+	closeFn := r.FnOpt("(*fAdapterTransport).close")
+	if closeFn == nil {
+		ctx.Unresolved(rule, "close(cause)", "adapter transport close function not found")
+		return
+	}
+	ln := ssax.Name(loop)
+	tokenBody := map[*ssa.BasicBlock]bool{}
+	for _, rs := range RecvSites(loop) {
+		if !isSignalChan(rs.Chan.Type()) {
+			continue
+		}
+		if sel, ok := rs.Instr.(*ssa.Select); ok {
+			if b := SelectCaseBlock(sel, rs.SelIndex); b != nil {
+				tokenBody[b] = true
+			}
+		}
+	}
+	classified := func(in ssa.Instruction) bool {
+		if tokenBody[in.Block()] {
+			return true
+		}
+		if c, ok := ssax.AsCall(in); ok && c.Static != nil {
+			if c.Static == closeFn {
+				return true
+			}
+			for _, c2 := range ssax.Calls(c.Static) {
+				if c2.Static == closeFn && c.Static.Pkg == r.Pkg && len(c.Static.Blocks) == 1 {
+					return true
+				}
+			}
+		}
+		return false
+	}
+	ssax.Instrs(loop, func(in ssa.Instruction) {
+		ret, ok := in.(*ssa.Return)
+		if !ok || in.Block().Comment == "recover" {
+			return
+		}
+		isThis := func(x ssa.Instruction) bool { return x == ssa.Instruction(ret) }
+		bad := ssax.PathFrom(loop, nil, isThis, classified)
+		if classified(ret) {
+			bad = nil
+		}
+		construct := ln + sprintf(" › return #%d", retOrdinal(loop, ret))
+		if bad == nil {
+			ctx.Discharge(rule, construct, r.IPos(in), "preceded by token consumption or close(cause)")
+		} else {
+			ctx.Violate(rule, construct, r.IPos(in),
+				"the reader loop can exit without the transport being closed and the cause published: the transport stays 'open' with nobody reading", ssax.PathString(r.V.Fset, bad)...)
+		}
+	})
+	for _, c := range ssax.Calls(loop) {
+		if c.Static == closeFn {
+			args := c.Args()
+			_, isNil := ssax.Strip(args[1]).(*ssa.Const)
+			ctx.Check(!isNil, rule, ln+" › close carries the error as cause #"+sprintf("%d", callOrdinal(loop, c)), r.IPos(c.Instr),
+				"close(err) with the error that ended the loop", "an unclean exit is reported with a nil cause (looks like a clean close: the monitor does not reopen)")
+		}
 	}
 }
